@@ -47,7 +47,23 @@ func (types *Types) StructOf(fields []reflect.StructField) reflect.Type {
 }
 
 func equalFields(fs1, fs2 map[int]reflect.StructField) bool {
-	return reflect.DeepEqual(fs1, fs2)
+	if len(fs1) != len(fs2) {
+		return false
+	}
+	for i, f1 := range fs1 {
+		f2, ok := fs2[i]
+		// The types are compared by identity: reflect.DeepEqual would follow
+		// the pointer that makes every defined type unique and find two
+		// defined types with the same name and underlying type equal.
+		if !ok || f1.Type != f2.Type {
+			return false
+		}
+		f1.Type, f2.Type = nil, nil
+		if !reflect.DeepEqual(f1, f2) {
+			return false
+		}
+	}
+	return true
 }
 
 // addFields adds a list of struct fields to the cache if not already present
